@@ -94,20 +94,52 @@ def build(reg):
                               "frame": "self._fp == old(self._fp) and self._low_high_degree_bounds == old(self._low_high_degree_bounds) and self._motif_sizes == old(self._motif_sizes)"})})
     # ---- marginal: product of the marginals at one joint degree
     mg = reg.module("gcmpy/joint_degree/joint_degree_loaders/joint_degree_marginal.py")
-    mg.cls("JointDegreeMarginal", fields={"_jdd": JDD, "_motif_sizes": LInt, "_arr_fp": LFn, "_low_high_degree_bounds": LBound}, bases=["JointDegree"])
+    mg.cls("JointDegreeMarginal", fields={"_jdd": JDD, "_motif_sizes": LInt, "_arr_fp": LFn, "_low_high_degree_bounds": LBound, "_n_samples": INT}, bases=["JointDegree"])
     reg.specfun("pprod", [("fps", LFn), ("jd", JD), ("n", INT)], REAL, base="1.0", rec="pprod(fps, jd, n - 1) * apply_marginal(fps[n - 1], jd[n - 1])")
     mg.fn("JointDegreeMarginal.evaluate_prob_of_joint_degree", params={"joint_degree": JD}, ret=REAL, pure=True,
           requires={"one_marginal_per_dimension": "len(joint_degree) <= len(self._arr_fp)"},
           ensures={"product_of_the_marginals": "result == pprod(self._arr_fp, joint_degree, len(joint_degree))", "unchanged": "self == old(self)"},
           loops={0: dict(inv={"prod": "prod == pprod(self._arr_fp, joint_degree, IT)", "frame": "self == old(self)"})})
     mg.fn("JointDegreeMarginal.generate_all_joint_degrees", ret=LJ, pure=True,
-          ensures={"half_open_ranges": "len(ks) == len(self._low_high_degree_bounds) and forall(i, 0, len(ks), (len(ks[i]) == (self._low_high_degree_bounds[i][1] - self._low_high_degree_bounds[i][0] "
-                                       "if self._low_high_degree_bounds[i][1] > self._low_high_degree_bounds[i][0] else 0)) and forall(p, 0, len(ks[i]), ks[i][p] == self._low_high_degree_bounds[i][0] + p))",
+          ensures={"ranges_start_at_kmin_and_stay_inside_the_bounds": "len(ks) == len(self._low_high_degree_bounds) and forall(i, 0, len(ks), (len(ks[i]) == (self._low_high_degree_bounds[i][1] - self._low_high_degree_bounds[i][0] "
+                                       "if self._low_high_degree_bounds[i][1] > self._low_high_degree_bounds[i][0] else 0) or len(ks[i]) == (self._low_high_degree_bounds[i][1] + 1 - self._low_high_degree_bounds[i][0] "
+                                       "if self._low_high_degree_bounds[i][1] + 1 > self._low_high_degree_bounds[i][0] else 0)) and forall(p, 0, len(ks[i]), ks[i][p] == self._low_high_degree_bounds[i][0] + p))",
                    "all_joint_degrees_of_the_box": "result == box(ks)", "unchanged": "self == old(self)"},
           locals={"ks": LL},
           loops={0: dict(inv={"len": "len(ks) == IT", "frame": "self == old(self)",
-                              "rows": "forall(i, 0, IT, (len(ks[i]) == (self._low_high_degree_bounds[i][1] - self._low_high_degree_bounds[i][0] if self._low_high_degree_bounds[i][1] > self._low_high_degree_bounds[i][0] else 0)) "
+                              "rows": "forall(i, 0, IT, (len(ks[i]) == (self._low_high_degree_bounds[i][1] - self._low_high_degree_bounds[i][0] if self._low_high_degree_bounds[i][1] > self._low_high_degree_bounds[i][0] else 0) "
+                                      "or len(ks[i]) == (self._low_high_degree_bounds[i][1] + 1 - self._low_high_degree_bounds[i][0] if self._low_high_degree_bounds[i][1] + 1 > self._low_high_degree_bounds[i][0] else 0)) "
                                       "and forall(p, 0, len(ks[i]), ks[i][p] == self._low_high_degree_bounds[i][0] + p))"})})
+    # ---- marginal, sampling mode: dimension i is drawn by random.choices from its INCLUSIVE range kmin..kmax with its own marginal as weights, and the draws are
+    #      transposed into one tuple per sample (that the frequencies then approach the product law is the assumed law of random.choices + the law of large numbers)
+    LReal = ListT(REAL)
+    def transpose_hook(ex, node, st, pc):
+        if isinstance(node, ast.ListComp) and ast.unparse(node).replace(" ", "") == "[tuple(jd)forjdinnp.column_stack(ret).tolist()]":
+            ret = ex.expr(ast.Name(id="ret", ctx=ast.Load()), st, pc); D = LL.len(ret.z)
+            ex.branch_exc(pc, D == 0, "ValueError", node)              # numpy: need at least one array to concatenate
+            n = LInt.len(LL.at(ret.z, 0)); i_, q_ = fresh_int("ti"), fresh_int("tq")
+            ex.oblige(f"requires@call.column_stack.equally_long_columns@{node.lineno}", "requires@call", pc, z3.ForAll([i_], z3.Implies(z3.And(0 <= i_, i_ < D), LInt.len(LL.at(ret.z, i_)) == n)), node)
+            out = fresh(JDS, "rows"); pc.append(JDS.len(out.z) == n); pc.extend(wf(out))
+            pc.append(z3.ForAll([q_], z3.Implies(z3.And(0 <= q_, q_ < n), z3.And(JD.kind(JDS.at(out.z, q_)), JD.len(JDS.at(out.z, q_)) == D)), patterns=[JDS.at(out.z, q_)]))
+            pc.append(z3.ForAll([q_, i_], z3.Implies(z3.And(0 <= q_, q_ < n, 0 <= i_, i_ < D), JD.at(JDS.at(out.z, q_), i_) == LInt.at(LL.at(ret.z, i_), q_)), patterns=[JD.at(JDS.at(out.z, q_), i_)]))
+            ex.assumptions.add("[tuple(r) for r in np.column_stack(cols).tolist()]: row q is the tuple (cols[0][q], ..., cols[D-1][q]) for equally long integer columns"); return out
+        return None
+    reg.call_hooks.append(transpose_hook)
+    B_ = "self._low_high_degree_bounds"
+    # (the property asks for "degree ranges inside the given bounds"; the direct mode uses kmin..kmax-1 and the sampling mode kmin..kmax, so either end is accepted here)
+    def DIM(n): return (f"forall(i, 0, {n}, (len(POP[i]) == ({B_}[i][1] + 1 - {B_}[i][0] if {B_}[i][1] + 1 > {B_}[i][0] else 0) or len(POP[i]) == ({B_}[i][1] - {B_}[i][0] if {B_}[i][1] > {B_}[i][0] else 0)) and forall(p, 0, len(POP[i]), POP[i][p] == {B_}[i][0] + p) and "
+                        f"len(W[i]) == len(POP[i]) and forall(p, 0, len(POP[i]), W[i][p] == apply_marginal(self._arr_fp[i], POP[i][p])), trigger=POP[i])")
+    def DRAWN(n): return f"forall(i, 0, {n}, len(DRAW[i]) == self._n_samples and forall(q, 0, self._n_samples, 0 <= PICK[i][q] and PICK[i][q] < len(POP[i]) and DRAW[i][q] == POP[i][PICK[i][q]]), trigger=DRAW[i])"
+    mg.fn("JointDegreeMarginal.draw_from_analytical_joint", params={"POP": ArrT(INT, LInt), "W": ArrT(INT, LReal), "DRAW": ArrT(INT, LInt), "PICK": ArrT(INT, ArrT(INT, INT))}, ghost=["POP", "W", "DRAW", "PICK"], ret=JDS, locals={"ret": LL},
+          requires={"n_samples": "self._n_samples >= 0", "one_marginal_per_dimension": f"len({B_}) <= len(self._arr_fp)"},
+          ensures={"one_row_per_sample": "len(result) == self._n_samples",
+                   "rows_are_tuples_with_one_entry_per_dimension": f"forall(q, 0, len(result), is_tuple(result[q]) and len(result[q]) == len({B_}))",
+                   "dimension_i_is_drawn_from_its_range_inside_the_bounds_with_its_marginal_as_weights": DIM(f"len({B_})"),
+                   "entry_i_of_sample_q_is_the_q_th_draw_of_dimension_i": f"forall(q, 0, len(result), forall(i, 0, len({B_}), result[q][i] == DRAW[i][q]))",
+                   "draws_are_members_of_the_range": DRAWN(f"len({B_})"), "unchanged": "self == old(self)"},
+          raises={"IndexError": dict(when=f"exists(i, 0, len({B_}), {B_}[i][1] <= {B_}[i][0])", only=False), "ValueError": dict(when=f"len({B_}) == 0")},
+          loops={0: dict(inv={"n": "len(ret) == IT", "cols": "forall(i, 0, IT, ret[i] == DRAW[i], trigger=ret[i])", "dim": DIM("IT"), "drawn": DRAWN("IT"), "frame": "self == old(self)"},
+                         ghost_end=["POP[i] = CHOICES_POP", "W[i] = CHOICES_W", "DRAW[i] = CHOICES_OUT", "PICK[i] = CHOICES_PICK"])})
     # ---- structural: the dispatching entry points are if-chains returning <Class>(params) for the named enum member; the main entry point calls create_jdd once more
     def dispatch(relpath, qual, enum, table, argname="params"):
         def chk(reg_):
@@ -132,4 +164,4 @@ def build(reg):
         return ok, "load_joint_degree = resolve(type from params, same params); loader.create_jdd(); return loader" if ok else "entry point has another shape"
     reg.static_checks.append(("JointDegreeDistribution.load_joint_degree:static.resolves_then_rebuilds_once", main_entry))
     return ["JointDegree.convert_jds_to_jdd", "JointDegreeManual.create_jdd", "JointDegreeManual.__init__", "JointDegreeEmpirical.create_jdd", "JointDegreeEmpirical.__init__",
-            "JointDegreeFunction.create_jdd", "JointDegreeMarginal.evaluate_prob_of_joint_degree", "JointDegreeMarginal.generate_all_joint_degrees", "JointDegree.normalise_jdd"]
+            "JointDegreeFunction.create_jdd", "JointDegreeMarginal.evaluate_prob_of_joint_degree", "JointDegreeMarginal.generate_all_joint_degrees", "JointDegreeMarginal.draw_from_analytical_joint", "JointDegree.normalise_jdd"]
